@@ -90,7 +90,7 @@ class Table:
     self.t[name] = {"kind": kind, "parent": parent, "host": host, "top_sig": top_sig, "level": level, "field": field}
 
 
-BB_COUNT = [0]
+BB_COUNT = [0, 0]
 
 
 def touch_signal(rng, sig, name, shape, host, tab, B):
@@ -106,6 +106,11 @@ def touch_signal(rng, sig, name, shape, host, tab, B):
         from pymtl3 import Bits as _Bits
         mkb = (lambda v: _Bits(max(8, int(v).bit_length() + 1), v)) if bb else (lambda v: v)
         if bb: BB_COUNT[0] += 1
+        elif rng.random() < 0.15:
+          # ... or as another kind of int: an IntEnum member ( s.x[Pos.LO:Pos.HI] ), a bool ( s.x[True] )
+          import enum
+          mkb = lambda v: bool(v) if v in (0, 1) and rng.random() < 0.5 else enum.IntEnum("Pos", {f"P{v}": v})[f"P{v}"]
+          BB_COUNT[1] += 1
         if k < 0.3:
           sl = obj[mkb(lo)]; snm = f"{nm}[{lo}:{lo + 1}]"
         else:
@@ -238,6 +243,7 @@ def run_case(sh, case):
     rng = mkrng(*seedkey, "build")       # identical touches in both elaborations
     top = GC(rng, items, "s", tab, B, 0)
     sh.count("bits_typed_slice_bounds", BB_COUNT[0]); BB_COUNT[0] = 0
+    sh.count("enum_or_bool_slice_bounds", BB_COUNT[1]); BB_COUNT[1] = 0
     tab.add("s", "component", None, "s", None, 0, "s")
     try:
       top.elaborate()
